@@ -24,6 +24,11 @@ CLAIMED["C20"] = dict(
     text="Every route reachable through the helper-to-helper and shard-to-shard routers is shown to be wrapped by the authentication layer (a route merged after .layer() is reported), the layer forwards only on the Some edge of the ClientIdentity lookup and answers 401 otherwise, collector routes carry no such layer, identities are created only from the certificate (or from the header on the disable_https arms), and no handler reads headers itself. Decides the wiring; axum/tower/rustls are trusted.",
     ref="§3 C20")
 
+CLAIMED["C14"] = dict(
+    technique="static analysis: may-reachability over MIR CFGs (Poll::Pending without a registered waker), avoid-reachability pairing of state changes with wake calls, guard-polarity dominance checks, who-may-write census of cursor fields with expression-shape extraction",
+    text="For every poll function of the send/receive buffers: Pending is never returned on a path that did not register the waker (lost wake-up), each side parks in and wakes the right waker slot, every buffer state change that can unblock the other side reaches the corresponding wake on all paths (can_write sampled before take, close wakes the reader, a completed write wakes index i+1, a consumed message calls wake_next), next_op returns Pending only if the waker was accepted and advances `next` only after a ready operation, and the cursors/woken_at are written only by their owner operation with the documented wrap/max expressions. Decides waker and cursor discipline, not byte-exact queue equivalence or deadlock freedom over all schedules.",
+    ref="§3 C14")
+
 NOT_APPLICABLE = {
     "C01": "end-to-end numerical equality of the MPC histogram with a plaintext reference over all inputs/shardings: no clause of it is visible in code shape; static analysis in reach cannot bound it (DESIGN.md §4)",
     "C07": "functional correctness of arithmetic/Boolean circuits over all operand values is numerical; would need symbolic execution of the circuits, a different technique family (DESIGN.md §4)",
